@@ -1,5 +1,6 @@
 """C11 - recovered displacement / strain / stress fields."""
 import ast
+from fractions import Fraction as Fr
 import re
 
 from . import fieldk, spec, panelk, pyrules, pyflow
@@ -28,6 +29,48 @@ def expect_lin(chk, rule, ser, rel, out_arr, want, what, factor_want=None, guard
     chk.ob(rule, ok, rel, ser.fname, what, line=line, expected={d: repr(v) for d, v in want.items()},
            got={d: repr(v * f) for d, v in lin.items()},
            sample='%s: %s = sum_S c_S * %s' % (ser.fname, out_arr, {d: repr(v) for d, v in want.items()}))
+
+
+def expect_strain_row(chk, ser, rel, out_arr, want, p_, model, guards, A):
+    """strain output = linear series (R11.2) + NLterms * quadratic terms of the TOTAL slopes (R11.3):
+    exx: (w,x)^2/2, eyy: (w,y)^2/2, gxy: w,x*w,y with w,x = (2/a) sum_S c_S f'_S g_S, w,y = (2/b) sum_S c_S f_S g'_S"""
+    acc, factor, rem = ser.lin_of_output(out_arr)
+    line = ser.out_lines.get(out_arr, 0)
+    what = 'linear strain row %d (%s)' % (p_, model)
+    if acc is None:
+        chk.ob('R11.2', False, rel, ser.fname, what, line=line, expected='factor * accumulated series (+ quadratic slope terms)', got=repr(ser.outputs.get(out_arr)))
+        return
+    lin = fieldk.series_lin(ser, acc, guards)
+    ok = set(lin) == set(want) and all((lin[d] * factor).close(want[d]) for d in want)
+    chk.ob('R11.2', ok, rel, ser.fname, what, line=line, expected={d: repr(v) for d, v in want.items()},
+           got={d: repr(v * factor) for d, v in lin.items()},
+           sample='%s: %s = sum_S c_S * %s' % (ser.fname, out_arr, {d: repr(v) for d, v in want.items()}))
+    if p_ > 2 or model != 'plate':
+        # curvatures carry no quadratic term; the quadratic part is judged once (it does not depend on the curvature switch)
+        if p_ > 2:
+            chk.ob('R11.3', not rem.t, rel, ser.fname, 'curvature row %d has no quadratic term (%s)' % (p_, model), line=line, got=repr(rem))
+        return
+    g = spec.Geo()
+    slope = {}
+    for a_ in sorted(rem.atoms()):
+        if a_.startswith('@'):
+            l_ = fieldk.series_lin(ser, a_[1:], None)
+            if set(l_) == {2} and l_[2].close(fieldk.phi(A, 'S', 'w', 1, 0)):
+                slope[a_] = S('WXI')
+            elif set(l_) == {2} and l_[2].close(fieldk.phi(A, 'S', 'w', 0, 1)):
+                slope[a_] = S('WETA')
+    got = rem.subs(slope)
+    NL = S('NLterms')
+    expq = [NL * C(Fr(1, 2)) * g.dx * g.dx * S('WXI') * S('WXI'), NL * C(Fr(1, 2)) * g.dy * g.dy * S('WETA') * S('WETA'),
+            NL * g.dx * g.dy * S('WXI') * S('WETA')][p_]
+    name = ['exx', 'eyy', 'gxy'][p_]
+    per_term = any(i.kind == 'nonlinear-accumulation' and i.msg.split()[0] == acc for i in ser.w.issues)
+    if not rem.t and per_term:
+        return          # reported term by term below (quadratic terms accumulated inside the series loop)
+    chk.ob('R11.3', got.close(expq), rel, ser.fname, 'quadratic slope term of ' + name, line=line,
+           expected='NLterms * %s of the accumulated slopes w,x = (2/a)*sum_S c_S f\'_S g_S, w,y = (2/b)*sum_S c_S f_S g\'_S' % ['(w,x)^2/2', '(w,y)^2/2', 'w,x*w,y'][p_],
+           got=repr(got) if rem.t else 'no quadratic term at all', detail='; '.join(got.diffterms(expq, 3)),
+           sample='%s: %s += NLterms * %s' % (ser.fname, name, repr(expq)))
 
 
 def run(chk):
@@ -76,7 +119,7 @@ def run(chk):
             for (c, f, dx, dy) in row:
                 dd = spec.DOF3[f]
                 want[dd] = want.get(dd, P()) + c * fieldk.phi(A, 'S', f, dx, dy)
-            expect_lin(chk, 'R11.2', ser, rel3, arr, want, 'linear strain row %d (%s)' % (p_, model), guards=guards)
+            expect_strain_row(chk, ser, rel3, arr, want, p_, model, guards, A)
     # flagcyl is 1 iff r != 0
     fl = [n for n in ast.walk(ser.fn) if isinstance(n, ast.If) and norm(n.test) in ('r==0', 'r!=0')]
     okf = len(fl) == 1 and ((norm(fl[0].test) == 'r==0' and norm(fl[0].body[0]) == 'flagcyl=0' and norm(fl[0].orelse[0]) == 'flagcyl=1') or
